@@ -126,8 +126,9 @@ fn format_via_uucore(
                     ))),
                 })?;
 
+            // `\c` ends all output, including the reuse of the format for remaining arguments.
             if control_flow == ControlFlow::Break(()) {
-                break;
+                return Ok(());
             }
         }
 
